@@ -98,6 +98,10 @@ func (ex *Exec) modifiedIn(li *loopInfo) (cells map[*ssa.Alloc]bool, heaps map[s
 			case *ssa.Range:
 				add(ex.iterHeapName(x), ArrS(SInt, SBool))
 			case *ssa.Call:
+				if fn := x.Common().StaticCallee(); fn != nil && fn.Pkg != nil && strings.HasSuffix(fn.Pkg.Pkg.Path(), "goirc/logging") {
+					add("$log", ArrS(SInt, SEvent))
+					add("$loglen", SInt)
+				}
 				ex.callEffects(x.Common(), heaps)
 			case *ssa.Defer:
 				ex.callEffects(x.Common(), heaps)
@@ -238,14 +242,23 @@ func (ex *Exec) enterLoop(li *loopInfo) {
 		nv := ex.freshVal(cellHint(c)+"@loop", old.Ty)
 		ex.cur.cells[c] = nv
 	}
+	preNext := ex.getHeap(ex.cur, "$nextref", SInt)
+	preTrlen := map[string]*Term{}
+	preTr := map[string]*Term{}
+	for tr := range ex.V.db.Traces {
+		if heaps[tr] || heaps[tr+"len"] {
+			heaps[tr], heaps[tr+"len"] = true, true
+			ex.noteHeap(tr, ArrS(SInt, SEvent))
+			ex.noteHeap(tr+"len", SInt)
+			preTrlen[tr] = ex.getHeap(ex.cur, tr+"len", SInt)
+			preTr[tr] = ex.getHeap(ex.cur, tr, ArrS(SInt, SEvent))
+		}
+	}
 	var hs []string
 	for h := range heaps {
 		hs = append(hs, h)
 	}
 	sort.Strings(hs)
-	preNext := ex.getHeap(ex.cur, "$nextref", SInt)
-	preTrlen := ex.getHeap(ex.cur, "$trlen", SInt)
-	preTr := ex.getHeap(ex.cur, "$tr", ArrS(SInt, SEvent))
 	li.lateHavoc = map[string]bool{}
 	for _, h := range hs {
 		s, ok := ex.heapSort[h]
@@ -266,12 +279,12 @@ func (ex *Exec) enterLoop(li *loopInfo) {
 	if heaps["$nextref"] {
 		ex.assume(Ge(ex.getHeap(ex.cur, "$nextref", SInt), preNext))
 	}
-	if heaps["$trlen"] {
-		nl := ex.getHeap(ex.cur, "$trlen", SInt)
-		ex.assume(Ge(nl, preTrlen))
+	for tr, pl := range preTrlen {
+		nl := ex.getHeap(ex.cur, tr+"len", SInt)
+		ex.assume(Ge(nl, pl))
 		k := BV("k!t", SInt)
-		ex.assume(Forall([]BVar{{"k!t", SInt}}, Imp(And(Le(IntLit(0), k), Lt(k, preTrlen)),
-			Eq(Select(ex.getHeap(ex.cur, "$tr", ArrS(SInt, SEvent)), k), Select(preTr, k)))))
+		ex.assume(Forall([]BVar{{"k!t", SInt}}, Imp(And(Le(IntLit(0), k), Lt(k, pl)),
+			Eq(Select(ex.getHeap(ex.cur, tr, ArrS(SInt, SEvent)), k), Select(preTr[tr], k)))))
 	}
 	// the SSA range counter only ever counts up from -1
 	if a := ex.rangeIndexOf(li); a != nil {
